@@ -219,7 +219,19 @@ def subst(poly, m):
 
 
 def struct_polys(fn, e, leaf):
-    """e is an aggregate of Fe fields -> {field: Poly}"""
+    """e is an aggregate of Fe fields -> {field: Poly}.  First through the term evaluator (reassigned locals, temporaries and
+    private helpers resolved); the MIR expression tree is the fallback"""
+    try:
+        r = ssa.Eval(fn.prog, fn).run()
+        if isinstance(r.ret, ssa.Agg) and r.ret.get("_adt"):
+            out = {}
+            for k in r.ret.keys():
+                if isinstance(k, str) and not k.startswith("_"):
+                    out[k] = fexpr.to_poly_ssa(r, r.ret[k], leaf)
+            if out and all(v is not None for v in out.values()):
+                return out
+    except (KeyError, IndexError, TypeError, AttributeError, ValueError, RecursionError):
+        pass
     e = fexpr.strip(e)
     if e[0] != "agg" or e[1][0] != "adt":
         return None
